@@ -664,7 +664,11 @@ class C20(Check):
             except Exception as ex:
                 outs.append(('exc', type(ex).__name__))
         log.add('ensure_tree', case['state'], e, outs)
-        if e is not None:
+        if e is not None and 'makedirs' not in rec['calls']:
+            # the tree under test does not create directories through
+            # fileutils.os.makedirs: the injection point is not in effect
+            self.bump('probes', 'makedirs_seam_unavailable')
+        elif e is not None:
             self.bump('faults', 'errno_on_makedirs')
             swallowed_ok = (e == errno.EEXIST and case['state'] == 'dir')
             if e == errno.EEXIST:
@@ -688,7 +692,7 @@ class C20(Check):
                     self.bump('probes', 'EEXIST_on_dir')
             elif st == 'file':
                 self.bump('probes', 'EEXIST_on_file')
-                if outs[0] != ('oserror', errno.EEXIST):
+                if outs[0][0] != 'oserror':
                     self.viol('ensure_tree_file_in_the_way', got=list(outs[0]))
             else:
                 if outs[0][0] != 'oserror':
